@@ -78,6 +78,7 @@ def gen_cases(rng, tier):
             "style": rng.choice(["general"] * 5 + ["ties", "const", "near4", "near6", "near8", "near10", "tiny", "huge", "neg"]),
             "p_late": rng.choice([0, 0, 0.2]),
             "p_fail": rng.choice([0, 0, 0.05]),
+            "stride": rng.choice([1, 1, 1, 2, 3]),
         }
 
 
